@@ -244,6 +244,130 @@ def truncate(res, rng, tier):
     res.slices["truncate"] = {"prefix_loads": n, "comparisons": ncmp, "mismatches": len(mism), "wall_s": round(time.time() - t0, 1)}
 
 
+def _embed_cases(rng, tier):
+    """Files written by save() whose ARRAY DATA spells a zip archive: the 32-bit counters of a linear count-min sketch and the
+    32-bit counts of a heavy-hitter sketch are caller-chosen values (add(key, v) on a fresh cell), stored uncompressed.
+    yields (label, class loader, file bytes, kind, start of the embedded archive, end) with kind = 'complete' (the embedded
+    archive is itself a complete saved sketch of the class) or 'drop:<member>' / 'only-args' (a required member is missing)."""
+    s = sk()
+    import struct
+
+    fams = [("linear", lambda w: s.CountMinLinear(w, 1), s.CountMinLinear.load, lambda: s.CountMinLinear(1, 1)),
+            ("hh", lambda w: s.HeavyHitters(w, 1, 4), s.HeavyHitters.load, lambda: s.HeavyHitters(1, 1, 4))]
+    for fam, mk, loader, mk_tiny in fams:
+        tiny = mk_tiny()
+        tiny.add(b"x", 7)
+        p = tmpfile()
+        tiny.save(p)
+        with np().load(p) as z:
+            members = {k: z[k] for k in z.files}
+        os.unlink(p)
+        names = list(members)
+        variants = [("complete", names)] + [(f"drop:{m}", [x for x in names if x != m]) for m in names if m != "args"] + [("only-args", ["args"])]
+        if tier == "quick":
+            keep = {"complete", "only-args", f"drop:{names[-1]}", f"drop:{names[1]}"}
+            variants = [v for v in variants if v[0] in keep]
+        for kind, subset in variants:
+            bio = io.BytesIO()
+            np().savez(bio, **{k: members[k] for k in subset})
+            Z = bio.getvalue()
+            Z += b"\0" * (-len(Z) % 4)
+            cells = [struct.unpack_from("<I", Z, 4 * i)[0] for i in range(len(Z) // 4)]
+            lead = rng.randrange(1, 6)
+            W = len(cells) + lead + rng.randrange(2, 9)
+            keys = {}
+            i = 0
+            while len(keys) < W:
+                k = b"%d" % i if fam == "hh" else b"k%d" % i
+                k = k[:4] if fam == "hh" else k
+                i += 1
+                keys.setdefault(int(s.fasthash64(k, np().uint64(0))) % W, k)
+            big = mk(W)
+            for c, v in enumerate(cells):
+                if v:
+                    big.add(keys[lead + c], v)
+            p = tmpfile()
+            big.save(p)
+            data = open(p, "rb").read()
+            os.unlink(p)
+            pos = data.find(Z)
+            if pos < 0:
+                raise RuntimeError(f"embedded archive not found verbatim in the {fam} file")
+            yield f"{fam}-embedded-{kind}", loader, data, kind, pos, pos + len(Z), big
+
+
+def truncate_crafted(res, rng, tier):
+    """C20 on files whose array data contains the end-of-central-directory signature (the `uniqueSig` hypothesis of theorem
+    C20_prefix fails).  `zipfile` accepts leading bytes and trailing junk, so a prefix that contains an embedded archive opens
+    as THAT archive.  If the embedded archive is a complete sketch file the loader returns it — a genuine defect of the
+    unchanged tree (known finding); if a required member is missing the loader must raise."""
+    t0 = time.time()
+    sess = Session()
+    ops = []
+    n = 0
+    path = tmpfile()
+    try:
+        for label, loader, data, kind, pos, end, big in _embed_cases(rng, tier):
+            real = []
+            for L in range(len(data) + 1):
+                if L < pos - 2 and L % 7:      # before the embedded archive the file is an ordinary one (covered by `truncate`): sample
+                    real.append("?")
+                    continue
+                with open(path, "wb") as f:
+                    f.write(data[:L])
+                oc, obj = _load_outcome(loader, path)
+                n += 1
+                real.append("K" if oc == "X:KeyError" else oc[0])
+                if L < len(data) and oc == "O":
+                    if kind == "complete":
+                        sig = "C20:embedded-complete-archive"
+                        what = (f"C20 {label}: the {L}-byte prefix of a {len(data)}-byte file written by save() loads as a sketch: the counters spell a complete saved sketch "
+                                f"(bytes {pos}..{end}) and zipfile finds ITS end record")
+                    else:
+                        sig = "C20:incomplete-archive-accepted"
+                        what = (f"C20 {label}: the {L}-byte prefix of a {len(data)}-byte file RETURNED a sketch although the archive that opens lacks a member the loader needs ({kind})")
+                    if not any(f.get("signature") == sig and f.get("label") == label for f in res.oracle_failures):
+                        res.oracle_failures.append({"pid": "C20", "what": what, "signature": sig, "label": label, "L": L, "file_hex": data.hex() if len(data) < 6000 else None})
+                    res.count("crafted_prefixes_loaded_" + kind.split(":")[0])
+                if L == len(data) and oc != "O":
+                    res.oracle_failures.append({"pid": "C20", "what": f"C20 {label}: the complete file does not load ({oc})", "label": label, "L": L})
+                del obj
+            res.nontrivial(["truncate-crafted", label, len(data)])
+            res.count("crafted_files")
+            res.sample({"slice": "truncate-crafted", "file": label, "bytes": len(data), "embedded": [pos, end], "outcomes_from_embedded_end": "".join(real[end - 2:end + 6])})
+            if len(data) <= 4000:
+                # container level: where the model says the zip opens, the real loader either returns (complete) or fails on a missing member (KeyError);
+                # elsewhere the exception class must agree
+                def pred(got, real=real, kind=kind):
+                    parts = got.split(" ")
+                    if len(parts) != 2 or parts[0] != "false" or len(parts[1]) != len(real):
+                        return False
+                    for m, r in zip(parts[1], real):
+                        if r == "?":
+                            continue
+                        if m == "O":
+                            if r not in ("O", "K", "X", "B", "V"):   # opened: what happens next is the member reader's business
+                                return False
+                        elif m != ("B" if r == "X" else r):
+                            return False
+                    return True
+                ops.append([f"npz.prefixes {data.hex()}", pred, "crafted"])
+                res.count("crafted_files_compared_with_model")
+    finally:
+        if os.path.exists(path):
+            os.unlink(path)
+    res.evaluations += n
+    sess.add_case({"slice": "truncate-crafted"}, ops)
+    mism, ncmp = sess.run()
+    res.mismatches += mism
+    res.slices["truncate_crafted"] = {"prefix_loads": n, "comparisons": ncmp, "mismatches": len(mism), "wall_s": round(time.time() - t0, 1)}
+
+
+def truncate_all(res, rng, tier):
+    truncate(res, rng, tier)
+    truncate_crafted(res, rng, tier)
+
+
 # =============================================================================== C16 shm
 
 
@@ -297,12 +421,31 @@ def shm_slice(res, rng, tier):
             ops.append([f"shm.hll {p}", None, "layout"])
         before = _shm_names()
         plain = mk(False)
-        owner = mk(True)
+        # where the shared-memory owner comes from: the constructor, or `load(file, shared_memory=True)` of a saved non-empty sketch
+        # (a loader that rebinds an array instead of copying into the block leaves the views looking at zeros)
+        origin = rng.choice(["ctor", "load", "load"])
+        if origin == "load":
+            for kk in key_alphabet(rng, 4):
+                plain.add(kk, rng.randrange(1, 9))
+            if kind != "hll":
+                plain.n_added_records[1] += np().uint64(rng.randrange(1, 5))
+            f = tmpfile()
+            plain.save(f)
+            owner = type(plain).load(f, shared_memory=True)
+            os.unlink(f)
+            res.count("shm_owner_from_load")
+        else:
+            owner = mk(True)
         name = owner.shm.name.lstrip("/")
         if args is None:
             args = ("cms", owner.args)  # the documented way: rebuild a view from the owner's `args`
         views = [s.attach_shared_memory(args[0], args[1], owner.shm.name) for _ in range(rng.choice([1, 2]))]
         for vv in views:
+            if _state(vv) != _state(plain) or _state(owner) != _state(plain):
+                res.oracle_failures.append({"pid": "C16", "what": f"C16 {kind} {w}x{d} (owner from {origin}): right after attaching, the state seen through "
+                                            f"{'the view' if _state(vv) != _state(plain) else 'the owner'} differs from the in-memory sketch "
+                                            f"(n_added/n_records: view {[int(x) for x in getattr(vv, 'n_added_records', [])]}, plain {[int(x) for x in getattr(plain, 'n_added_records', [])]})",
+                                            "kind": kind, "origin": origin})
             if _public(vv) != _public(owner):
                 res.oracle_failures.append({"pid": "C16", "what": f"C16 {kind}: a view attached through attach_shared_memory(owner.args) has other parameters than the owner: "
                                             f"{ {k: (_public(owner).get(k), _public(vv).get(k)) for k in _public(owner) if _public(owner).get(k) != _public(vv).get(k)} }", "kind": kind})
